@@ -103,3 +103,28 @@ fn tag_namespaced_no_jsx_leak() {
     assert!(!matches!(&tag, Expr::JSXNamespacedName(..)) || errors() > e0, "U-tag-nojsx: a namespaced tag must not be emitted as a raw `ns:name` token unless an error is reported (C07)");
     std::mem::forget((tag, el_name, v));
 }
+
+// member-expression spellings of Fragment / KeepAlive (`Vue.Fragment`, `Vue.KeepAlive`): not slot hosts (C02)
+fn member_builtin<const WHICH: u8>() {
+    let v = visitor(any_options());
+    let prop = match WHICH { 0 => "Fragment", 1 => "KeepAlive", _ => "_Fragment" };
+    let el_name = JSXElementName::JSXMemberExpr(JSXMemberExpr { span: sp(1), obj: JSXObject::Ident(ident("Vue", local_ctxt())), prop: idn(prop) });
+    assert!(!v.is_component(&el_name), "U-tag: `X.Fragment` / `X.KeepAlive` are not component hosts (children stay a plain list)");
+    std::mem::forget((el_name, v));
+}
+macro_rules! mb_h { ($($n:ident: $k:expr;)*) => { $(#[kani::proof] #[kani::unwind(8)] #[kani::stub(std::ptr::drop_in_place, no_drop)] #[kani::stub(core::ptr::drop_glue, no_glue)] #[kani::stub(alloc::fmt::format, fmt_marker)] fn $n() { member_builtin::<$k>() })* } }
+mb_h! { tag_member_fragment: 0; tag_member_keepalive: 1; tag_member_fragment_alias: 2; }
+
+// C10: the same tag NAME with two different bindings in one module: each occurrence is classified by ITS binding
+#[kani::proof] #[kani::unwind(4)] #[kani::stub(std::ptr::drop_in_place, no_drop)] #[kani::stub(core::ptr::drop_glue, no_glue)] #[kani::stub(alloc::fmt::format, fmt_marker)]
+fn tag_same_name_two_bindings() {
+    let mut v = visitor(any_options());
+    let first_unresolved: bool = kani::any();
+    let n1 = JSXElementName::Ident(ident("Foo", if first_unresolved { unresolved_ctxt() } else { local_ctxt() }));
+    let n2 = JSXElementName::Ident(ident("Foo", if first_unresolved { local_ctxt() } else { unresolved_ctxt() }));
+    let t1 = v.transform_tag(&n1);
+    let t2 = v.transform_tag(&n2);
+    let is_resolve = |v: &V, t: &Expr| matches!(call_parts(t), Some((c, _)) if is_import(v, c, "resolveComponent"));
+    assert!(is_resolve(&v, &t1) == first_unresolved && is_resolve(&v, &t2) == !first_unresolved, "U-tag-frame: an earlier tag of the same name with another binding does not change how this one is resolved");
+    std::mem::forget((t1, t2, n1, n2, v));
+}
